@@ -25,8 +25,13 @@ pub fn parse_query(query: &str) -> Result<Query, QueryError> {
         )));
     }
 
-    let query = match ast.pop().unwrap() {
-        Statement::Query(query) => query,
+    let query = match ast.pop() {
+        Some(Statement::Query(query)) => query,
+        None => {
+            return Err(QueryError::ParseError(
+                "Expected a single query statement, but there are 0".to_string(),
+            ))
+        }
         _ => {
             return Err(QueryError::ParseError(
                 "Only SELECT queries are supported.".to_string(),
